@@ -271,9 +271,16 @@ func (s *rlSys) apply(op string) bool {
 			s.lastRot = vrt.Elapsed()
 		}
 		s.cur += rec
-		n, err := s.l.Write([]byte(rec))
+		buf := []byte(rec)
+		n, err := s.l.Write(buf)
 		if err != nil || n != len(rec) {
 			s.r.Failf("Write returned %d,%v", n, err)
+		}
+		// once Write has returned the buffer is the caller's again (io.Writer: "Write must not
+		// retain p"): the package's own plain-text encoder hands over fmt's pooled buffer, which
+		// the next log call overwrites
+		for i := range buf {
+			buf[i] = '#'
 		}
 	case op == "reopen":
 		// the process restarts: the logger is closed and a new one opened on the same file
@@ -348,7 +355,7 @@ func TestVerifRotateLogger(t *testing.T) {
 	}
 	// other delimiters (the naming scheme must agree between naming, globbing and the
 	// keep-days boundary whatever the delimiter): some sort below '-', some above
-	for _, delim := range []string{"+", ",", "_", "."} {
+	for _, delim := range []string{"+", ",", "_", ".", ""} {
 		cfgs = append(cfgs, rlCfg{rule: "size", days: 1, gzip: false, delim: delim, maxSize: 10, maxBackups: 0, pre: "foreign"},
 			rlCfg{rule: "size", days: 1, gzip: delim == ".", delim: delim, maxSize: 10, maxBackups: 2, pre: "mixed3"},
 			rlCfg{rule: "daily", days: 1, gzip: false, delim: delim, pre: "mixed3"})
@@ -464,4 +471,98 @@ func firstBackupFile(s *rlSys) string {
 		f += gzipExt
 	}
 	return f
+}
+
+// A directory state in which the compressed form of the next backup cannot be produced (an
+// entry of that name is already there): the rotation still happens, and whether or not the
+// compression succeeds, the rotated records stay readable - in the plain backup if no .gz
+// could be made.  Both rules, the first and a later rotation, logger closed or restarted
+// afterwards.
+func TestVerifRotateCompressionBlocked(t *testing.T) {
+	defer vrt.WriteReport()
+	Disable()
+	if !vrt.Shard(10) {
+		return
+	}
+	for _, rule := range []string{"size", "daily"} {
+		for _, blockRotation := range []int{1, 2} {
+			for _, end := range []string{"close", "reopen"} {
+				rule, blockRotation, end := rule, blockRotation, end
+				vrt.Explore(vrt.Options{Name: fmt.Sprintf("rotatelogger/compression-blocked/rule=%s/rotation=%d/then=%s", rule, blockRotation, end), Bound: 0, Horizon: 1 << 30}, func(r *vrt.Run) {
+					cfg := rlCfg{rule: rule, days: 0, gzip: true, delim: "-", maxSize: 10, maxBackups: 0, pre: "none"}
+					s := newRlSys(r, cfg)
+					var want []string
+					n := 0
+					write := func() {
+						n++
+						rec := fmt.Sprintf("r%d:xxxx\n", n)
+						want = append(want, rec)
+						if _, err := s.l.Write([]byte(rec)); err != nil {
+							r.Failf("Write: %v", err)
+						}
+					}
+					step := func() {
+						if rule == "size" {
+							vrt.Advance(2 * time.Second)
+						} else {
+							vrt.Advance(24 * time.Hour)
+						}
+					}
+					// every write after the first exceeds maxSize / falls on the next day, i.e. rotates;
+					// the backup a rotation produces is named after the start of the file it closes
+					started := s.startTs
+					write()
+					step()
+					for rot := 1; rot <= 2; rot++ {
+						if rot == blockRotation {
+							if err := os.Mkdir(backupName(cfg, s.file, started)+gzipExt, 0o700); err != nil {
+								r.Failf("setup: %v", err)
+							}
+						}
+						write()
+						started = vrt.Now()
+						vrt.Settle()
+						step()
+					}
+					if err := s.l.Close(); err != nil {
+						r.Failf("Close: %v", err)
+					}
+					vrt.Settle()
+					if end == "reopen" {
+						s.open()
+						write()
+						vrt.Settle()
+						s.l.Close()
+						vrt.Settle()
+					}
+					all := ""
+					var names []string
+					ents, _ := os.ReadDir(s.dir)
+					for _, e := range ents {
+						names = append(names, e.Name())
+						if e.IsDir() {
+							continue
+						}
+						p := filepath.Join(s.dir, e.Name())
+						if strings.HasSuffix(p, gzipExt) {
+							if _, err := os.Stat(strings.TrimSuffix(p, gzipExt)); err == nil {
+								continue // plain and compressed form side by side: count the records once
+							}
+							c, _ := readMaybeGz(strings.TrimSuffix(p, gzipExt))
+							all += c
+							continue
+						}
+						b, _ := os.ReadFile(p)
+						all += string(b)
+					}
+					r.Outcome("%v", names)
+					for _, rec := range want {
+						if c := strings.Count(all, rec); c != 1 {
+							r.Failf("record %q is found %d times in the current file and the backups (directory: %v)", strings.TrimSpace(rec), c, names)
+						}
+					}
+				})
+			}
+		}
+	}
 }
